@@ -983,14 +983,36 @@ type symIndexPtr struct {
 
 func (x *Exec) sliceOp(st *State, i *ssa.Slice) Value {
 	lo, hi, mx := -1, -1, -1
+	// symbolic bounds are case-split over the possible values (small slices only)
+	limit := 0
+	switch b := x.val(st, i.X).(type) {
+	case SliceV:
+		limit = b.capacity
+	case StringV:
+		limit = len(b.s)
+	default:
+		limit = 64
+	}
+	bound := func(v ssa.Value) int {
+		t := x.val(st, v).(*Term)
+		if t.isConst() {
+			return int(sx(t.val, t.w))
+		}
+		for k := 0; k <= limit; k++ {
+			if x.decide(st, x.mkEq(t, x.mkConst(t.w, uint64(k)))) {
+				return k
+			}
+		}
+		panic(execPanic{"slice bounds out of range (symbolic)"})
+	}
 	if i.Low != nil {
-		lo = x.mustConst(x.val(st, i.Low))
+		lo = bound(i.Low)
 	}
 	if i.High != nil {
-		hi = x.mustConst(x.val(st, i.High))
+		hi = bound(i.High)
 	}
 	if i.Max != nil {
-		mx = x.mustConst(x.val(st, i.Max))
+		mx = bound(i.Max)
 	}
 	switch b := x.val(st, i.X).(type) {
 	case SliceV:
